@@ -1,5 +1,6 @@
 (* C02: the hand-written model Model/Persist.v equals the translations of
      batchie.data.Screen.save_h5 / Screen.load_h5 / ExperimentSpace.from_screen / .save_h5 / .load_h5
+     and of the helpers encode_string_array / decode_string_array they call
    regenerated from /repo on every run (Generated/SrcPersist.v, by harness/py2gal.py with the configurations C02_* of
    harness/src_functions.py), for all inputs.
    The translated methods work on a RAW file [h5raw] (datasets and attributes by name, end of Model/Persist.v): save_h5
